@@ -100,105 +100,13 @@ def run(ctx):
     # ------------------------------------------------------------------ R1 framing table
     R1 = ctx.rule("C11-R1", "framing decision table of HTTPConnection.request over chunked flag x caller Content-Length/Transfer-Encoding x body shape: caller framing is respected; otherwise exactly one of Content-Length / Transfer-Encoding: chunked, nothing for body-less requests whose method expects no body and Content-Length: 0 for the others; the send mode follows the framing", "E5")
     rq = m.method(HC, "request")
-    rows = {}
-    steps = 0
-    for chunks_kind, cl_kind in (("none", "none"), ("none", "value"), ("some", "value"), ("some", "none")):
-        rule = FrameRule(chunks_kind, cl_kind)
-        outs, it = run_function(m, rq, rule, HC, params={"chunked": AV("unk", sym="p:chunked"), "headers": AV("unk", sym="p:headers", truth=True, none=False)},
-                                seeds={("self", "sock"): const(None)}, record_decisions=True)
-        steps += it.budget.steps
-        for o in outs:
-            if o.kind == "raise":
-                continue
-            ts = o.st.ts
-            ch = o.st.facts.get("p:chunked", (None, None))[0]
-            has_cl = ts.get(("cmp", "'content-length'", "in", "header_keys"))
-            has_te = ts.get(("cmp", "'transfer-encoding'", "in", "header_keys"))
-            framing = tuple(x[0] for x in ts.get("framing", ()))
-            sends = ts.get("sends", ())
-            looped = ts.get("chunk_iters", 0)
-            key = (chunks_kind, cl_kind, ch, has_cl, has_te, framing, tuple(s.split(":")[0] for s in sends), looped)
-            rows.setdefault(key, o)
-    ctx.states += steps
-    ctx.sites(R1, len(rows), 12, "rows of the framing table")
-    for key, o in sorted(rows.items(), key=str):
-        chunks_kind, cl_kind, ch, has_cl, has_te, framing, sends, looped = key
-        want_framing = None
-        want_chunked = None
-        if ch is True:
-            want_framing = () if has_te is True else ("transfer-encoding",)
-            want_chunked = True
-        elif ch is False:
-            if has_cl is True:
-                want_framing, want_chunked = (), False
-            elif has_te is True:
-                want_framing, want_chunked = (), True
-            elif has_cl is False and has_te is False:
-                if cl_kind == "none":
-                    if chunks_kind == "some":
-                        want_framing, want_chunked = ("transfer-encoding",), True
-                    else:
-                        want_framing, want_chunked = (), False
-                else:
-                    want_framing, want_chunked = ("content-length",), False
-        if want_framing is None:
-            ctx.ob(R1, rq.qual, f"row {key[:5]}: framing decided on all of chunked flag / caller CL / caller TE", False,
-                   "a path emits framing without having consulted the caller's framing headers", witness=o.st.witness(), node=rq.node)
-            continue
-        okf = framing == want_framing
-        body_sends = tuple(s for s in sends if s != "terminator")
-        term = sends.count("terminator")
-        okm = (term == (1 if want_chunked else 0)) and (sends[-1] == "terminator" if want_chunked else True)
-        if looped and chunks_kind == "some":
-            okm = okm and all((s == "chunk-framed") == want_chunked for s in body_sends)
-        desc = f"chunks={chunks_kind} length={cl_kind} chunked={ch} callerCL={has_cl} callerTE={has_te}"
-        ctx.ob(R1, rq.qual, f"[{desc}] emits {framing or 'no framing header'}; sends {sends}", okf and okm,
-               "" if (okf and okm) else f"expected framing {want_framing}, chunked-mode {want_chunked}: the message would carry both/neither framing or its body encoding would not match its headers", witness=o.st.witness(), node=rq.node)
-    # Content-Length value is the measured length
-    for key, o in rows.items():
-        for name, val in o.st.ts.get("framing", ()):
-            if name == "content-length":
-                ok = isinstance(val, tuple) and "content_length" in val and "str" in val
-                ctx.ob(R1, rq.qual, "Content-Length value is str(content_length) from body_to_chunks", ok, f"value provenance {val}", node=rq.node)
-                break
-        else:
-            continue
-        break
+    from . import reqrows
     nb = fold.need(RQ, "_METHODS_NOT_EXPECTING_BODY")
     ctx.ob(R1, RQ, f"_METHODS_NOT_EXPECTING_BODY contains GET, HEAD, DELETE, OPTIONS", {"GET", "HEAD", "DELETE", "OPTIONS"} <= set(nb) and "POST" not in nb and "PUT" not in nb and "PATCH" not in nb, str(sorted(nb)))
-    btc_call = [c for c in astq.calls(rq.node) if astq.call_text(c) == "body_to_chunks"]
-    ok = len(btc_call) == 1 and astq.text(btc_call[0].args[0]) == "body" and astq.text(astq.kwarg(btc_call[0], "method")) == "method"
-    ctx.ob(R1, rq.qual, "body_to_chunks(body, method=method, ...) classifies this request's body", ok)
 
     # ------------------------------------------------------------------ R2 chunk encoding
-    R2 = ctx.rule("C11-R2", "chunk encoding: empty chunks are skipped, str chunks are UTF-8 encoded before they are measured, the size prefix is the hex length of the very bytes sent, the terminator is sent once after the loop iff chunked", "E4")
-    n2 = 0
-    for key, o in rows.items():
-        sends_full = o.st.ts.get("sends", ())
-        for s in sends_full:
-            if s.startswith("chunk-framed:"):
-                n2 += 1
-                parts = s.split(":", 1)[1].split(",")
-                ok = len(parts) == 2 and parts[0] == f"len({parts[1]})"
-                ctx.ob(R2, rq.qual, f"chunk frame is (len(x), x) of one object: {parts}", ok, "" if ok else "the size line does not measure the bytes that follow", node=rq.node)
-                break
-        if n2:
-            break
-    ctx.sites(R2, n2, 1, "chunk-framed sends")
-    empt = [o for o in rows.values() if o.st.ts.get("chunk_truth_at_send") is not True and any(s.startswith(("chunk-framed", "raw:chunk")) for s in o.st.ts.get("sends", ()))]
-    ctx.ob(R2, rq.qual, "a chunk is sent only when non-empty", not empt, "" if not empt else "an empty chunk in chunked mode ends the body early", witness=empt[0].st.witness() if empt else None, node=rq.node)
-    # str -> utf-8 before measuring
-    chunk_srcs = set(astq.assigned_from(rq.node, lambda v: isinstance(v, ast.Attribute) and v.attr == "chunks"))
-    loop = [n for n in astq.walk_fn(rq.node) if isinstance(n, ast.For) and isinstance(n.iter, ast.Name) and n.iter.id in chunk_srcs]
-    ok = False
-    if loop:
-        body = loop[0].body
-        cv = astq.text(loop[0].target)
-        enc_i = [i for i, s in enumerate(body) if isinstance(s, ast.If) and astq.text(s.test) == f"isinstance({cv}, str)"
-                 and any(astq.text(x).replace('"', "'") == f"{cv} = {cv}.encode('utf-8')" for x in s.body)]
-        send_i = [i for i, s in enumerate(body) if any(astq.call_text(c) == "self.send" for c in astq.calls(s))]
-        ok = bool(enc_i) and bool(send_i) and enc_i[0] < send_i[0]
-    ctx.ob(R2, rq.qual, "str chunks are UTF-8 encoded before being measured and sent", ok)
+    R2 = ctx.rule("C11-R2", "chunk encoding: empty chunks are skipped, str chunks are UTF-8 encoded before they are measured, the size prefix is the hex length of the very bytes sent, the terminator is sent once after the loop iff chunked", "E10 rows of request()")
+    reqrows.check_framing(ctx, R1, R2)
 
     rule_r6(ctx)
 
@@ -243,9 +151,11 @@ def run(ctx):
         if which == "pool":
             ctx.sites(R7, len(seen7), 1, "body-less (303) resend paths")
     prule, pfi, pouts = resend.analyse(ctx, "pool")
-    txt = astq.text(pfi.node)
-    ctx.ob(R3, pfi.qual, "the position is recorded before the first attempt: body_pos = set_file_position(body, body_pos) precedes the request", "body_pos = set_file_position(body, body_pos)" in txt)
     reqs = [s for s in prule.sites if s.kind == "request"]
+    rec = {s.st.ts.get("filepos_args") for s in reqs}
+    okrec = bool(reqs) and rec == {(("entry:body",), ("entry:body_pos",))}
+    ctx.ob(R3, pfi.qual, "the position is recorded before the first attempt: set_file_position(body, body_pos) on the caller's body and position precedes every request step", okrec,
+           "" if okrec else f"request steps are reached with set_file_position arguments {sorted(map(str, rec))}")
     okb = all("entry:body" in s.args["body"].tags for s in reqs if "body" in s.args) and reqs
     ctx.ob(R3, pfi.qual, "the body sent is the caller's body object", bool(okb))
 
@@ -253,94 +163,91 @@ def run(ctx):
     R4 = ctx.rule("C11-R4", "rewind or refuse: with a recorded position the body is seek()ed or UnrewindableBodyError is raised; a failed tell() (_FAILEDTELL) always refuses", "E5 on set_file_position / rewind_body")
     sfp = m.func(f"{RQ}.set_file_position")
     rb = m.func(f"{RQ}.rewind_body")
+    from ..rows import GenRule, effect_rows, helper_closure
+    from ..terms import K, T, destruct, subterms
 
-    class RW(BaseRule):
-        def call(self, it, st, node, recv, pos, kw):
-            t = ast.unparse(node.func)
-            if t == "getattr":
-                return [Out("normal", st, AV("unk", sym="attr:" + ast.unparse(node.args[1])))]
-            fv = st.view(st.env.get(it.var(node.func.id))) if isinstance(node.func, ast.Name) and it.var(node.func.id) in st.env else None
-            if fv is not None and fv.sym == "attr:'seek'":
-                s = st.copy()
-                s.ts["seeked"] = tuple(sorted(pos[0].tags)) if pos else ()
-                return [Out("normal", s, UNK), Out("raise", st.copy(), exc("builtins.OSError"))]
-            if t == "body.tell":
-                return [Out("normal", st, AV("unk", tags=frozenset({"tell"}), none=False)), Out("raise", st.copy(), exc("builtins.OSError"))]
-            if t == "rewind_body":
-                s = st.copy()
-                s.ts["rewind_called"] = True
-                return [Out("normal", s, const(None)), Out("raise", st.copy(), exc("urllib3.exceptions.UnrewindableBodyError"))]
-            if t == "type":
-                return [Out("normal", st, UNK)]
-            q = it.resolve_callee(node, recv)
-            if q and it.m.is_exception_class(q):
-                return [Out("normal", st, AV("exc", it.m.norm(q), truth=True, none=False))]
-            return [Out("normal", st, UNK)]
-
-        def global_value(self, it, name):
-            if name == "_FAILEDTELL":
-                return AV("const", ("enum", "_FAILEDTELL"), truth=True, none=False)
-            return None
-
-    # rewind_body with an int position
-    outs, it = run_function(m, rb, RW(), params={"body_pos": AV("unk", sym="pos", tags=frozenset({"pos"}), none=False, typ="builtins.int")}, record_decisions=True)
-    kinds = set()
-    for o in outs:
-        seek_known = o.st.facts.get("attr:'seek'", (None, None))[1]
-        if o.kind in ("normal", "return"):
-            ok = o.st.ts.get("seeked") == ("pos",)
-            ctx.ob(R4, rb.qual, f"int position: normal exit only after seek(body_pos)", ok, "" if ok else "rewind_body returns without having rewound", witness=o.st.witness(), node=rb.node)
-        elif o.val.val not in (EXT_TOP.val, BASE_TOP.val):
-            kinds.add(o.val.val.rsplit(".", 1)[-1])
-    ctx.ob(R4, rb.qual, f"int position: failures are {sorted(kinds)}", kinds <= {"UnrewindableBodyError", "ValueError"} and "UnrewindableBodyError" in kinds)
-    outs, it = run_function(m, rb, RW(), params={"body_pos": AV("const", ("enum", "_FAILEDTELL"), truth=True, none=False)}, record_decisions=True)
-    oks = [o for o in outs if o.kind != "raise"]
-    ctx.ob(R4, rb.qual, "_FAILEDTELL never rewinds silently: every path raises", not oks and all(o.val.val.endswith("UnrewindableBodyError") for o in outs if o.val.val not in (EXT_TOP.val, BASE_TOP.val)),
-           "" if not oks else "a body whose position could not be recorded is re-sent as if rewound", witness=oks[0].st.witness() if oks else None, node=rb.node)
-    un = [o for o in outs if o.kind == "raise" and o.val.val.endswith("UnrewindableBodyError")]
-    ctx.ob(R4, rb.qual, "_FAILEDTELL raises UnrewindableBodyError", bool(un))
-    # set_file_position
-    outs, it = run_function(m, sfp, RW(), record_decisions=True)
+    FAILED = None
+    fv = fold.module_const(RQ, "_FAILEDTELL")
+    from ..interp import AV as _AV
+    from ..terms import term_of
+    FAILED = term_of(_AV("const", ("enum", str(fv)), truth=True, none=False))
+    raising = {"seek": "builtins.OSError", "tell": "builtins.OSError", "rewind_body": "urllib3.exceptions.UnrewindableBodyError"}
+    # ---- rewind_body
+    rows_rb = effect_rows(ctx, rb, GenRule(ctx, rb.module, raising=raising, inline=set(helper_closure(m, [rb])) - {rb.qual}), None)
+    ctx.sites(R4, len(rows_rb), 4, "rows of rewind_body")
+    POS, BODY = f"p:{rb.params()[1]}", f"p:{rb.params()[0]}"
+    seen4 = set()
+    for r in rows_rb:
+        is_int = r.isinst(POS, "int")
+        failed = r.cmp(POS, "is", FAILED)
+        seeks = [[a_ for a_ in e_[2:] if isinstance(a_, str)] for e_ in r.events("call") if e_[1] == f"{BODY}.seek"]
+        key = (r.out, is_int, failed, tuple(map(tuple, seeks)), r.st.ts.get("fault"))
+        if key in seen4:
+            continue
+        seen4.add(key)
+        if r.returns:
+            ok = seeks == [[POS]] and not r.st.ts.get("fault")
+            ctx.ob(R4, rb.qual, f"normal exit only after seek(body_pos) succeeded (int position={is_int})", ok, "" if ok else "rewind_body returns without having rewound", witness=r.witness(), node=rb.node)
+        else:
+            ok = r.out in ("raise:UnrewindableBodyError", "raise:ValueError") and (r.out == "raise:UnrewindableBodyError" or (failed is not True and not r.st.ts.get("fault")))
+            ctx.ob(R4, rb.qual, f"refusal {r.out} (failed-tell marker={failed}, seek fault={bool(r.st.ts.get('fault'))})", ok,
+                   "" if ok else "a failed tell() or a failing seek() must surface as UnrewindableBodyError", witness=r.witness(), node=rb.node)
+        if failed is True:
+            ctx.ob(R4, rb.qual, "_FAILEDTELL never rewinds silently: the path raises UnrewindableBodyError", r.out == "raise:UnrewindableBodyError",
+                   "" if not r.returns else "a body whose position could not be recorded is re-sent as if rewound", witness=r.witness(), node=rb.node)
+    ctx.ob(R4, rb.qual, "a failing seek() is refused with UnrewindableBodyError", any(r.out == "raise:UnrewindableBodyError" and r.st.ts.get("fault") for r in rows_rb))
+    ctx.ob(R4, rb.qual, "the failed-tell marker is tested", any(r.cmp(POS, "is", FAILED) is True for r in rows_rb), "" if any(r.cmp(POS, "is", FAILED) is True for r in rows_rb) else "no path distinguishes _FAILEDTELL")
+    # ---- set_file_position
+    rows_s = effect_rows(ctx, sfp, GenRule(ctx, sfp.module, raising=raising, quiet=("log.debug",), inline=set(helper_closure(m, [sfp])) - {sfp.qual} - {rb.qual}), None)
+    SP, SB = f"p:{sfp.params()[1]}", f"p:{sfp.params()[0]}"
+    TELLATTR = T("getattr", SB, K("tell"), "None")
     n = 0
-    seen_ret = set()
-    for o in outs:
-        pos_none = o.st.facts.get("p:pos", (None, None))[1]
-        if pos_none is False and o.kind != "raise":
+    seen_s = set()
+    uncovered = []
+    for r in rows_s:
+        pos_none = r.is_none(SP)
+        rew = [[a_ for a_ in e_[2:] if isinstance(a_, str)] for e_ in r.events("call") if e_[1] == "rewind_body"]
+        has_tell = r.is_none(TELLATTR)
+        has_tell = (not has_tell) if has_tell is not None else (r.truth(T("hasattr", SB, K("tell"))))
+        key = (r.out, pos_none, tuple(map(tuple, rew)), has_tell, r.ret, r.st.ts.get("fault"))
+        if key in seen_s:
+            continue
+        seen_s.add(key)
+        if pos_none is False:
             n += 1
-            v = o.st.view(o.val) if o.val is not None else None
-            keeps = v is not None and v.sym == "p:pos"
-            key = (bool(o.st.ts.get("rewind_called")), keeps)
-            if key in seen_ret:
-                continue
-            seen_ret.add(key)
-            ctx.ob(R4, sfp.qual, "a given position => rewind_body is called", bool(o.st.ts.get("rewind_called")), witness=o.st.witness(), node=sfp.node)
-            ctx.ob(R4, sfp.qual, "a given position is handed back unchanged (so the next resend rewinds to the same place)", keeps,
-                   "" if keeps else "after the first rewind the recorded start position is forgotten: a second resend records the end of the file as its start and sends an empty body", witness=o.st.witness(), node=sfp.node)
-    for o in outs:
-        if o.kind == "return" and o.st.facts.get("p:pos", (None, None))[1] is True and o.st.facts.get("attr:'tell'", (None, None))[1] is False:
-            v = o.st.view(o.val)
-            ok = "tell" in v.tags or (v.kind == "const" and v.val == ("enum", "_FAILEDTELL"))
-            ctx.ob(R4, sfp.qual, f"first attempt on a body with tell(): position recorded or marked failed ({'tell' if 'tell' in v.tags else v.val})", ok, witness=o.st.witness(), node=sfp.node)
+            if r.returns:
+                ctx.ob(R4, sfp.qual, "a given position => rewind_body is called", rew == [[SB, SP]], f"rewind calls {rew}", witness=r.witness(), node=sfp.node)
+                keeps = r.ret == SP
+                ctx.ob(R4, sfp.qual, "a given position is handed back unchanged (so the next resend rewinds to the same place)", keeps,
+                       "" if keeps else "after the first rewind the recorded start position is forgotten: a second resend records the end of the file as its start and sends an empty body", witness=r.witness(), node=sfp.node)
+            else:
+                ok = r.out == "raise:UnrewindableBodyError"
+                ctx.ob(R4, sfp.qual, f"a given position that cannot be rewound to: {r.out}", ok, witness=r.witness(), node=sfp.node)
+        elif pos_none is True and r.returns:
+            if has_tell is True:
+                fault = r.st.ts.get("fault")
+                ok = (r.ret == FAILED) if fault else (r.ret == T(f"{SB}.tell"))
+                ctx.ob(R4, sfp.qual, f"first attempt on a body with tell(): position recorded or marked failed ({'tell() failed -> ' if fault else ''}{r.ret[:50]})", ok, witness=r.witness(), node=sfp.node)
+            else:
+                if r.ret in ("None", SP):
+                    uncovered.append(r)
     ctx.sites(R4, n, 1, "set_file_position rows with a position")
+    ctx.ob(R4, sfp.qual, "a failing tell() is remembered as the failed-tell marker", any(r.returns and r.ret == FAILED and r.st.ts.get("fault") for r in rows_s))
 
     # ------------------------------------------------------------------ R5 classifier agreement
-    R5 = ctx.rule("C11-R5", "classifier agreement: every body kind that body_to_chunks turns into a one-shot chunk source (generator over read(), iter(body)) gets a rewind position or the failed-tell marker from set_file_position on the first attempt", "sibling cross-check")
-    # one-shot kinds per R6 rows: file-like (has read) and iterable. set_file_position records only when the body has tell().
-    tell_gate = [n_ for n_ in astq.walk_fn(sfp.node) if isinstance(n_, ast.If) and "tell" in astq.text(n_.test)]
-    gate_txt = astq.text(tell_gate[0].test) if tell_gate else ""
-    covers_read_without_tell = False
-    covers_iterables = False
-    for n_ in astq.walk_fn(sfp.node):
-        if isinstance(n_, ast.If):
-            t = astq.text(n_.test)
-            if "'read'" in t.replace('"', "'") or "hasattr(body, 'read')" in t.replace('"', "'"):
-                covers_read_without_tell = True
-            if "iter(" in t or "Iterable" in t or "__iter__" in t or "__next__" in t:
-                covers_iterables = True
+    R5 = ctx.rule("C11-R5", "classifier agreement: every body kind that body_to_chunks turns into a one-shot chunk source (generator over read(), iter(body)) gets a rewind position or the failed-tell marker from set_file_position on the first attempt", "sibling cross-check on effect rows")
+    # rows of set_file_position with no position yet and no tell(): what do they say about read() / iterability, and what do they return?
+    READ = T("hasattr", SB, K("read"))
+    unc_read = [r for r in uncovered if r.truth(READ) is not False and r.is_none(T("getattr", SB, K("read"), "None")) is not True]
+    unc_iter = [r for r in uncovered if r.truth(READ) is not True]
+    covers_read_without_tell = not unc_read
+    covers_iterables = not unc_iter
     ctx.ob(R5, sfp.qual, "file-like body without tell() gets a position or the failed marker", covers_read_without_tell,
-           "" if covers_read_without_tell else f"only `{gate_txt}` records a position: a file-like body without tell() yields None, is consumed by the first attempt and re-sent empty on retry instead of raising UnrewindableBodyError", node=sfp.node)
+           "" if covers_read_without_tell else "only a body with tell() gets a position: a file-like body without tell() yields None, is consumed by the first attempt and re-sent empty on retry instead of raising UnrewindableBodyError",
+           witness=unc_read[0].witness() if unc_read else None, node=sfp.node)
     ctx.ob(R5, sfp.qual, "iterator/generator body gets the failed marker", covers_iterables,
-           "" if covers_iterables else "an iterator/generator body yields position None: after a retry/307 the exhausted iterator is re-sent as an empty body instead of raising UnrewindableBodyError", node=sfp.node)
+           "" if covers_iterables else "an iterator/generator body yields position None: after a retry/307 the exhausted iterator is re-sent as an empty body instead of raising UnrewindableBodyError",
+           witness=unc_iter[0].witness() if unc_iter else None, node=sfp.node)
 
 
 def rule_r6(ctx):
@@ -349,93 +256,65 @@ def rule_r6(ctx):
     # ------------------------------------------------------------------ R6 length is measured on what is sent
     R6 = ctx.rule("C11-R6", "body_to_chunks: per body kind, a non-None content_length is len()/nbytes of the very object placed in chunks (after str->bytes), 0 for no body with a body-expecting method, None otherwise / for one-shot sources", "E4 provenance")
     btc = m.func(f"{RQ}.body_to_chunks")
+    from ..rows import GenRule, effect_rows
+    from ..terms import K, T, destruct
 
-    class BRule(BaseRule):
-        def call(self, it, st, node, recv, pos, kw):
-            t = ast.unparse(node.func)
-            if t == "to_bytes":
-                return [Out("normal", st, AV("unk", tags=frozenset(pos[0].tags | {"to_bytes"}), none=False))]
-            if t == "len":
-                a = pos[0] if pos else UNK
-                return [Out("normal", st, AV("unk", tags=frozenset({"len-of:" + ",".join(sorted(a.tags))}), none=False))]
-            if t == "hasattr":
-                return [Out("normal", st, AV("unk", sym="has:" + ast.unparse(node.args[1])))]
-            if t == "memoryview":
-                return [Out("normal", st, AV("obj", "mv", truth=True, none=False, tags=frozenset({"mv:" + ast.unparse(node.args[0])}))), Out("raise", st.copy(), exc("builtins.TypeError"))]
-            if t == "iter":
-                return [Out("normal", st, AV("unk", tags=frozenset({"iter:" + ast.unparse(node.args[0])}), none=False)), Out("raise", st.copy(), exc("builtins.TypeError"))]
-            if t == "chunk_readable":
-                return [Out("normal", st, AV("unk", tags=frozenset({"generator-over-read"}), none=False))]
-            if t == "ChunksAndContentLength":
-                s = st.copy()
-                s.ts["result"] = (kw.get("chunks", pos[0] if pos else UNK), kw.get("content_length", pos[1] if len(pos) > 1 else UNK))
-                return [Out("normal", s, AV("obj", "result", truth=True, none=False))]
-            if t == "method.upper":
-                return [Out("normal", st, AV("unk", sym="METHOD"))]
-            if t == "to_bytes" and not pos:
-                return [Out("normal", st, UNK)]
-            q = it.resolve_callee(node, recv)
-            if q and it.m.is_exception_class(q):
-                return [Out("normal", st, AV("exc", it.m.norm(q), truth=True, none=False))]
-            return [Out("normal", st, UNK)]
-
-        def global_value(self, it, name):
-            if name == "_METHODS_NOT_EXPECTING_BODY":
-                return AV("unk", sym="NOBODY_SET", none=False)
-            return None
-
-        def getattr(self, it, st, node, base):
-            if base.kind == "obj" and base.val == "mv" and node.attr == "nbytes":
-                return AV("unk", tags=frozenset({"nbytes-of:" + ",".join(sorted(base.tags))}), none=False)
-            return None
-
-    outs, it = run_function(m, btc, BRule(), record_decisions=True)
+    rows = [r for r in effect_rows(ctx, btc, GenRule(ctx, btc.module, raising={"memoryview": "builtins.TypeError", "iter": "builtins.TypeError"}), None) if r.returns]
+    B = f"p:{btc.params()[0]}"
     seen = set()
-    for o in outs:
-        if o.kind != "return" or "result" not in o.st.ts:
+    for r in rows:
+        op, args = destruct(r.ret or "")
+        if op != "new:ChunksAndContentLength":
+            ctx.ob(R6, btc.qual, f"returns a ChunksAndContentLength ({(r.ret or '')[:60]})", False, witness=r.witness(), node=btc.node)
             continue
-        ch, cl = o.st.ts["result"]
-        ch, cl = o.st.view(ch), o.st.view(cl)
-        body_none = o.st.facts.get("p:body", (None, None))[1]
-        strb = o.st.ts.get(("isinst", "p:body", ("builtins.str", "builtins.bytes")))
-        has_read = o.st.facts.get("has:'read'", (None, None))[0]
-        nobody_m = o.st.ts.get(("cmp", "METHOD", "in", "_METHODS_NOT_EXPECTING_BODY")) if False else None
-        key = (body_none, strb, has_read, ch.val if ch.kind == "const" else tuple(sorted(ch.tags)) or ch.kind, cl.val if cl.kind == "const" else tuple(sorted(cl.tags)) or "?")
+        kw = {}
+        for i_, a_ in enumerate(args):
+            if a_.startswith("chunks="):
+                kw["chunks"] = a_[7:]
+            elif a_.startswith("content_length="):
+                kw["content_length"] = a_[15:]
+            else:
+                kw[("chunks", "content_length")[i_] if i_ < 2 else str(i_)] = a_
+        ch, cl = kw.get("chunks"), kw.get("content_length")
+        body_none = r.is_none(B)
+        strb = r.isinst(B, "str", "bytes")
+        has_read = r.truth(T("hasattr", B, K("read")))
+        if has_read is None and r.is_none(T("getattr", B, K("read"), "None")) is not None:
+            has_read = not r.is_none(T("getattr", B, K("read"), "None"))
+        key = (body_none, strb, has_read, ch, cl)
         if key in seen:
             continue
         seen.add(key)
         if body_none is True:
-            in_set = o.st.ts.get(("cmp", "METHOD", "in", "NOBODY_SET"))
-            want_cl = None if in_set is True else (0 if in_set is False else "?")
-            ok = ch.kind == "const" and ch.val is None and cl.kind == "const" and cl.val == want_cl and not isinstance(cl.val, bool)
+            in_set = None
+            for k_, v_ in r.st.ts.items():
+                if isinstance(k_, tuple) and len(k_) == 4 and k_[0] == "cmp" and k_[2] == "in" and k_[1] == T("upper", f"p:{btc.params()[1]}") and k_[3] in ("g:_METHODS_NOT_EXPECTING_BODY", ) + tuple(x for x in (K(frozenset(fold.need(RQ, "_METHODS_NOT_EXPECTING_BODY"))),)):
+                    in_set = v_
+            want_cl = "None" if in_set is True else ("0" if in_set is False else "?")
+            ok = ch == "None" and cl == want_cl
             what = f"no body, method-expects-no-body={in_set}: chunks None, length {want_cl}"
-            key = key + (in_set,)
         elif strb is True:
-            ok = ch.kind == "tuple" and len(ch.val) == 1 and "to_bytes" in ch.val[0].tags and any(t.startswith("len-of:") and "to_bytes" in t for t in cl.tags)
+            X = T("to_bytes", B)
+            ok = ch == T("tuple", X) and cl == T("len", X)
             what = "str/bytes: one chunk of bytes, length = len of that chunk"
         elif has_read is True:
-            ok = "generator-over-read" in ch.tags and cl.kind == "const" and cl.val is None
+            opc, ac = destruct(ch or "")
+            is_gen = False
+            if opc and opc.startswith("nested:"):
+                is_gen = True
+            elif opc and f"{btc.module}.{opc}" in m.funcs:
+                gf = m.funcs[f"{btc.module}.{opc}"]
+                is_gen = any(isinstance(n_, (ast.Yield, ast.YieldFrom)) for n_ in astq.walk_fn(gf.node)) and B in ac
+            ok = is_gen and cl == "None"
             what = "file-like: generator over read(), length unknown"
-        elif ch.kind == "tuple":
-            ok = len(ch.val) == 1 and "entry" not in "" and any(t.startswith("nbytes-of:mv:body") for t in cl.tags)
+        elif destruct(ch or "")[0] == "tuple":
+            ok = ch == T("tuple", B) and cl == f"{T('memoryview', B)}.nbytes" and not r.st.ts.get("fault")
             what = "buffer: the object itself, length = memoryview(body).nbytes"
         else:
-            ok = any(t.startswith("iter:body") for t in ch.tags) and cl.kind == "const" and cl.val is None
+            ok = ch == T("iter", B) and cl == "None"
             what = "iterable: iter(body), length unknown"
-        ctx.ob(R6, btc.qual, f"{what}", ok, "" if ok else f"chunks={key[3]} content_length={key[4]}: the declared length is not measured on what is sent", witness=o.st.witness(), node=btc.node)
+        ctx.ob(R6, btc.qual, f"{what}", ok, "" if ok else f"chunks={ch} content_length={cl}: the declared length is not measured on what is sent", witness=r.witness(), node=btc.node)
     ctx.sites(R6, len(seen), 5, "body kinds of body_to_chunks")
-    # method gate for the no-body case
-    txt = astq.text(btc.node)
-    inner = [n for n in ast.walk(btc.node) if isinstance(n, ast.FunctionDef) and n is not btc.node]
-    ok = False
-    for fn_ in inner:
-        flags = astq.assigned_from(fn_, lambda v: isinstance(v, ast.Call) and astq.text(v) == "isinstance(body, io.TextIOBase)")
-        for n in ast.walk(fn_):
-            if isinstance(n, ast.If) and isinstance(n.test, ast.Name) and n.test.id in flags:
-                ok = ok or any(isinstance(x, ast.Assign) and isinstance(x.value, ast.Call) and isinstance(x.value.func, ast.Attribute) and x.value.func.attr == "encode"
-                               and astq.text(x.value.func.value) == astq.text(x.targets[0]) and x.value.args and getattr(x.value.args[0], "value", None) == "utf-8" for x in n.body)
-    ctx.ob(R6, btc.qual, "text-mode files are UTF-8 encoded block by block", ok)
-
 
 
 # ---------------------------------------------------------------------------- R8 (added after seeded change C11/short-read-taken-for-eof)
@@ -447,9 +326,17 @@ def _run_r8(ctx):
     m = ctx.model
     R8 = ctx.rule("C11-R8", "a file body is read to its end: the block reader inside body_to_chunks stops only when a read returned nothing (a short read is not end-of-file: raw streams, pipes and sockets return what they have), and every block it read is yielded (UTF-8 encoded for text files)", "E10 effect rows of the nested reader generator")
     btc = m.func("urllib3.util.request.body_to_chunks")
-    inner = [n for n in ast.walk(btc.node) if isinstance(n, (ast.FunctionDef,)) and n is not btc.node
-             and any(isinstance(c, ast.Call) and isinstance(c.func, ast.Attribute) and c.func.attr == "read" for c in ast.walk(n))]
-    ctx.sites(R8, len(inner), 1, "block readers nested in body_to_chunks")
+    def reads(n):
+        return any(isinstance(c, ast.Call) and isinstance(c.func, ast.Attribute) and c.func.attr == "read" for c in ast.walk(n))
+
+    inner = [n for n in ast.walk(btc.node) if isinstance(n, (ast.FunctionDef,)) and n is not btc.node and reads(n)]
+    # a reader hoisted to module level (a generator function body_to_chunks calls) is the same reader
+    for c in astq.calls(btc.node):
+        if isinstance(c.func, ast.Name):
+            gf = m.funcs.get(f"{btc.module}.{c.func.id}")
+            if gf is not None and gf.cls is None and reads(gf.node) and any(isinstance(n_, (ast.Yield, ast.YieldFrom)) for n_ in astq.walk_fn(gf.node)) and gf.node not in inner:
+                inner.append(gf.node)
+    ctx.sites(R8, len(inner), 1, "block readers of body_to_chunks (nested or hoisted generators)")
 
     class Reader(GenRule):
         def call_hook(self, it, st, node, recv, pos, kw):
